@@ -359,6 +359,181 @@ theorem load_sound_iff_preclean_needed (mc : MCfg) (c : Ctl) (apps : List App) (
     rw [hxyp] at this
     exact absurd this (by simp)
 
+/-! ### the error side -/
+
+theorem err_loop {mc : MCfg} {c : Ctl} {s : Sim} {apps unl : List App}
+    (herr : (loadApplication mc c s apps).outcome = .loadingError unl) :
+    unl = (loadLoop mc c (coreCount apps) (c.nTries + 1) s 0 apps []).2.1 ∧ unl ≠ [] ∧
+    (loadApplication mc c s apps).sim = (loadLoop mc c (coreCount apps) (c.nTries + 1) s 0 apps []).1 := by
+  generalize hr : loadLoop mc c (coreCount apps) (c.nTries + 1) s 0 apps [] = r at *
+  have hne : r.2.1 ≠ [] := by
+    intro he
+    simp only [loadApplication, hr, he, ne_eq, not_true_eq_false, if_false] at herr
+    split at herr <;> exact absurd herr (by simp)
+  simp only [loadApplication, hr, if_pos hne] at herr ⊢
+  have : unl = r.2.1 := by injection herr with h; exact h.symm
+  exact ⟨this, this ▸ hne, trivial⟩
+
+/-- **which cores violate the post-condition of `SpiNNakerLoadingError`** (no `PreClean`): exactly the
+requested cores that are not named although they never received their binary, which is possible
+only for a core that was itself in the wait state before the call.  A named core is never loaded;
+cores that were not requested are untouched and not named. -/
+theorem postErr_false_iff (mc : MCfg) (c : Ctl) (apps : List App) (hv : Valid mc c apps) (s : Sim)
+    (unl : List App) (herr : (loadApplication mc c s apps).outcome = .loadingError unl) (x y p : Nat) :
+    postErrCore apps unl c.appId (s.m.core x y p) ((loadApplication mc c s apps).sim.m.core x y p) x y p = false ↔
+      ∃ a, wantedBy apps x y p = some a ∧ (loadApplication mc c s apps).sim.m.core x y p = s.m.core x y p ∧
+        s.m.core x y p ≠ ld c.appId a ∧ (s.m.core x y p).state = stWait ∧
+        ∀ u ∈ unl, wants u x y p = false := by
+  obtain ⟨hu, hne, hsim⟩ := err_loop herr
+  obtain ⟨hinv, hsub, hreason, hnamed⟩ :=
+    loadLoop_weak mc c apps hv s.m (c.nTries + 1) s 0 apps [] (liw_init mc c apps s)
+  rw [hsim]
+  rw [← hu] at hsub hreason hnamed
+  generalize (loadLoop mc c (coreCount apps) (c.nTries + 1) s 0 apps []).1.m = m at hinv hreason hnamed
+  have hwait : WaitInv apps m unl := by
+    rcases hreason with h | ⟨h, _⟩
+    · exact h
+    · exact absurd h hne
+  have hnm : NamedInv m unl := hnamed hne (by omega)
+  unfold postErrCore
+  cases hfind : wantedBy apps x y p with
+  | none =>
+    have hn := wantedBy_none hfind
+    have he := hinv.1 x y p hn
+    constructor
+    · intro h
+      exfalso
+      have hno : (unl.any fun u => wants u x y p) = false := by
+        rw [List.any_eq_false]
+        intro u hu' hwu
+        obtain ⟨a', ha', hsa⟩ := hsub u hu'
+        have := hsa.2.2 x y p hwu
+        rw [hn a' ha'] at this; exact absurd this (by simp)
+      dsimp only at h
+      rw [he, hno] at h
+      simp at h
+    · rintro ⟨a, ha, _⟩; cases ha
+  | some a =>
+    obtain ⟨ha, hw⟩ := wantedBy_some hfind
+    dsimp only
+    -- named (under its binary) iff some map of the error wants the core
+    have hnamed_iff : (unl.any fun u => u.name == a.name && wants u x y p) = true ↔
+        ∃ u ∈ unl, wants u x y p = true := by
+      simp only [List.any_eq_true, Bool.and_eq_true, beq_iff_eq]
+      constructor
+      · rintro ⟨u, hu', _, hwu⟩; exact ⟨u, hu', hwu⟩
+      · rintro ⟨u, hu', hwu⟩
+        obtain ⟨a', ha', hsa⟩ := hsub u hu'
+        have := hv.hdisj a ha a' ha' x y p hw (hsa.2.2 x y p hwu)
+        subst this
+        exact ⟨u, hu', hsa.1, hwu⟩
+    have hl : loaded a c.appId (m.core x y p) = true ↔ m.core x y p = ld c.appId a := by simp [loaded, ld]
+    have hsecond : (m.core x y p == s.m.core x y p || loaded a c.appId (m.core x y p)) = true := by
+      rcases hinv.2 a ha x y p hw with h | h
+      · simp [hl.mpr h]
+      · simp [h]
+    rw [hsecond, Bool.and_true]
+    by_cases hex : ∃ u ∈ unl, wants u x y p = true
+    · -- named: not in the wait state, hence not loaded: the post-condition holds
+      obtain ⟨u, hu', hwu⟩ := hex
+      have hst := hnm u hu' x y p hwu
+      have hnl : loaded a c.appId (m.core x y p) = false := by
+        cases h : loaded a c.appId (m.core x y p) with
+        | false => rfl
+        | true => rw [hl.mp h] at hst; exact absurd rfl hst
+      rw [hnamed_iff.mpr ⟨u, hu', hwu⟩, hnl]
+      constructor
+      · intro h; simp at h
+      · rintro ⟨a', _, _, _, _, hno⟩
+        have := hno u hu'
+        rw [hwu] at this; exact absurd this (by simp)
+    · have hno : ∀ u ∈ unl, wants u x y p = false := by
+        intro u hu'
+        cases h : wants u x y p with
+        | false => rfl
+        | true => exact absurd ⟨u, hu', h⟩ hex
+      have hnn : (unl.any fun u => u.name == a.name && wants u x y p) = false := by
+        cases h : (unl.any fun u => u.name == a.name && wants u x y p) with
+        | false => rfl
+        | true => exact absurd (hnamed_iff.mp h) hex
+      have hst := hwait a ha x y p hw hno
+      rw [hnn]
+      constructor
+      · intro h
+        have hnl : m.core x y p ≠ ld c.appId a := by
+          intro hld
+          rw [hl.mpr hld] at h; simp at h
+        have he : m.core x y p = s.m.core x y p := by
+          rcases hinv.2 a ha x y p hw with h' | h'
+          · exact absurd h' hnl
+          · exact h'
+        exact ⟨a, rfl, he, by rw [← he]; exact hnl, by rw [← he]; exact hst, hno⟩
+      · rintro ⟨a', ha', he, hnl, _, _⟩
+        cases ha'
+        have : loaded a c.appId (m.core x y p) = false := by
+          cases h : loaded a c.appId (m.core x y p) with
+          | false => rfl
+          | true => exact absurd (he.symm.trans (hl.mp h)) hnl
+        rw [this]; rfl
+
+/-- the cores of the machine that violate the post-condition of `SpiNNakerLoadingError(unl)` -/
+def badErrCores (mc : MCfg) (c : Ctl) (s : Sim) (apps unl : List App) : List (Nat × Nat × Nat) :=
+  (allCores mc.chips).filter fun k =>
+    !postErrCore apps unl c.appId (s.m.core k.1 k.2.1 k.2.2)
+      ((loadApplication mc c s apps).sim.m.core k.1 k.2.1 k.2.2) k.1 k.2.1 k.2.2
+
+/-- **`load_error_exact` needs `PreClean` exactly for the stale waiters on requested cores.**  Under
+`Valid` alone: when `SpiNNakerLoadingError(unl)` is raised, some core violates the post-condition
+(the error does not name exactly the cores that are not loaded) **iff** `staleHides` holds of the
+pre-state, the request and the violating set: non-empty, requested cores that did not hold their
+binary in the wait state under the app id before the call, each of which was itself in the wait
+state before the call (the read-back dropped it from the map: `readback-stale-waiter`).  The count
+shortcut cannot cause this.  `staleHides` contradicts `PreClean`. -/
+theorem load_error_iff_preclean_needed (mc : MCfg) (c : Ctl) (apps : List App) (hv : Valid mc c apps) (s : Sim)
+    (unl : List App) (herr : (loadApplication mc c s apps).outcome = .loadingError unl) :
+    (∀ x y p, postErrCore apps unl c.appId (s.m.core x y p)
+        ((loadApplication mc c s apps).sim.m.core x y p) x y p = false ↔ (x, y, p) ∈ badErrCores mc c s apps unl) ∧
+    ((∃ x y p, postErrCore apps unl c.appId (s.m.core x y p)
+        ((loadApplication mc c s apps).sim.m.core x y p) x y p = false) ↔
+      staleHides apps c.appId s.m.core (badErrCores mc c s apps unl) = true) ∧
+    (staleHides apps c.appId s.m.core (badErrCores mc c s apps unl) = true → ¬ PreClean s.m apps c.appId) := by
+  have hbad := postErr_false_iff mc c apps hv s unl herr
+  have hmem : ∀ x y p, (x, y, p) ∈ badErrCores mc c s apps unl ↔
+      postErrCore apps unl c.appId (s.m.core x y p) ((loadApplication mc c s apps).sim.m.core x y p) x y p = false := by
+    intro x y p
+    simp only [badErrCores, List.mem_filter, Bool.not_eq_true', mem_allCores]
+    constructor
+    · exact fun h => h.2
+    · intro h
+      obtain ⟨a, ha, _⟩ := (hbad x y p).mp h
+      obtain ⟨ha', hw⟩ := wantedBy_some ha
+      exact ⟨hv.hin a ha' x y p hw, h⟩
+  have hnonempty : staleHides apps c.appId s.m.core (badErrCores mc c s apps unl) = true →
+      ∃ x y p, postErrCore apps unl c.appId (s.m.core x y p)
+        ((loadApplication mc c s apps).sim.m.core x y p) x y p = false := by
+    intro h
+    simp only [staleHides, Bool.and_eq_true, Bool.not_eq_true', List.isEmpty_eq_false_iff] at h
+    obtain ⟨⟨x, y, p⟩, hk⟩ := List.exists_mem_of_ne_nil _ h.1.1
+    exact ⟨x, y, p, (hmem x y p).mp hk⟩
+  refine ⟨fun x y p => (hmem x y p).symm, ⟨?_, hnonempty⟩, ?_⟩
+  · rintro ⟨x, y, p, hxyp⟩
+    simp only [staleHides, Bool.and_eq_true, Bool.not_eq_true', List.isEmpty_eq_false_iff]
+    refine ⟨⟨List.ne_nil_of_mem ((hmem x y p).mpr hxyp), ?_⟩, ?_⟩
+    · rw [List.all_eq_true]
+      rintro ⟨x', y', p'⟩ hk
+      obtain ⟨a, ha, _, hne, _⟩ := (hbad x' y' p').mp ((hmem x' y' p').mp hk)
+      simp only [ha, loaded, Bool.not_eq_true', beq_eq_false_iff_ne, ne_eq]
+      exact hne
+    · simp only [staleSelf, List.all_eq_true, beq_iff_eq]
+      rintro ⟨x', y', p'⟩ hk
+      obtain ⟨a, _, _, _, hst, _⟩ := (hbad x' y' p').mp ((hmem x' y' p').mp hk)
+      exact hst
+  · intro h hpre
+    obtain ⟨x, y, p, hxyp⟩ := hnonempty h
+    have := load_error_exact mc c apps hv s hpre unl herr x y p
+    rw [hxyp] at this
+    exact absurd this (by simp)
+
 /-! ### instances: the two known findings are instances of `staleMasks`, by the two clauses -/
 
 example : (reqCores appsE).Nodup := by decide
@@ -380,6 +555,18 @@ example : badCores (mcE true) (ctlE false true) (initE 1 30) appsE = [(0, 0, 1)]
 /-- without stale waiters the predicate is false on any candidate set (here: the chip misses every
 fill, the call ends in the error instead) -/
 example : staleMasks (mcE true).chips appsE 30 true true (initE 5 31).m.core [(0, 0, 1)] = false := by
+  decide +kernel
+
+/-- the error side: cores 1 and 2 of chip (0, 0) requested, core 1 already waiting (another binary),
+the chip misses every fill: the error names core 2 only; core 1 violates the post-condition and
+`staleHides` holds of it -/
+def appsE2 : List App := [{ name := 0, image := [1, 2, 3, 4, 5, 6, 7, 8], targets := [(0, 0, [1, 2])] }]
+
+example : (loadApplication (mcE true) (ctlC false true) (initE 1 30) appsE2).outcome =
+      .loadingError [{ name := 0, image := [1, 2, 3, 4, 5, 6, 7, 8], targets := [(0, 0, [2])] }] ∧
+    badErrCores (mcE true) (ctlC false true) (initE 1 30) appsE2
+      [{ name := 0, image := [1, 2, 3, 4, 5, 6, 7, 8], targets := [(0, 0, [2])] }] = [(0, 0, 1)] ∧
+    staleHides appsE2 30 (initE 1 30).m.core [(0, 0, 1)] = true := by
   decide +kernel
 
 end Rig.C09
